@@ -88,6 +88,10 @@ type SeqCheck struct {
 	// leftover temp file - instead of running; 0 = never. The never-crashed twin is not
 	// used here: the next commands are judged by the property's own oracle.
 	FaultPct int
+	// TolerateResidue: after a fault, violations of other properties' state invariants
+	// (what a torn multi-event write leaves, e.g. todo-but-claimed) do not end the history:
+	// this property has something to say about such logs (C05: "logs whose tail was torn").
+	TolerateResidue bool
 	// GenOp overrides the op generator (may be nil).
 	GenOp func(rt *rapid.T, w *World, pre *Snapshot, prof Profile) Op
 	// AfterStep lets a property add its own oracle after a step (may be nil).
@@ -211,8 +215,8 @@ func RunSeq(t *testing.T, sc SeqCheck) {
 		ended := ""
 		for i := 0; i < n; i++ {
 			var op Op
-			if sc.FaultPct > 0 && w.StepNo >= 3 && StraceAvailable() == nil && pct(rt, sc.FaultPct, "seq.fault") {
-				inner := genOp(rt, w, pre, Profile{Name: "dying", Weights: map[string]int{"new_task": 30, "set": 40, "plan": 15, "compact": 15}})
+			if sc.FaultPct > 0 && w.StepNo >= 3 && w.Twin == nil && StraceAvailable() == nil && pct(rt, sc.FaultPct, "seq.fault") {
+				inner := genOp(rt, w, pre, Profile{Name: "dying", Weights: map[string]int{"new_task": 30, "set": 40, "plan": 15, "compact": 15, "claim": 12, "claim_id": 12}, ClaimPct: 30, StatePct: 40})
 				kind := "tear"
 				if inner.Kind == "plan" || inner.Kind == "compact" {
 					kind = "tmp"
@@ -231,6 +235,11 @@ func RunSeq(t *testing.T, sc SeqCheck) {
 			own, foreign := splitViolations(out.Viol, sc.Prop)
 			if len(own) > 0 {
 				fail(own)
+			}
+			if len(foreign) > 0 && sc.TolerateResidue && out.Post != nil && out.Abort == "" && anyStep(hist, func(s stepInfo) bool { return s.Out.Op.Kind == "fault" }) {
+				stats.Label("continued.with_crash_residue")
+				pre = out.Post
+				continue
 			}
 			if len(foreign) > 0 && anyStep(hist, func(s stepInfo) bool { return s.Out.Op.Kind == "fault" }) {
 				// state invariants of other properties are stated for command histories; what a
